@@ -64,13 +64,21 @@ func VerifParseTotal() {
 var vLexemes = []string{
 	"k:a", "t:a", "m:a", "e:a", " ", "(", ")", "not ", " and ", " or ", "in(", ",", "\"", "'", "*", ":", "[", "]", "{", "}",
 	" to ", "1", "-", "\\", "|", " fields ", " except ", "k", "_exists_:", "a",
+	// quoted forms of the keywords: a quoted token is a value, never a keyword
+	" '|'", " \"and\"", " `or`", " 'not'", " ')'", " \"(\"", " 'to'", " '*'",
 }
+
+// vFilters: complete filters a query may start with.
+var vFilters = []string{"k:a", "t:a b", "m:a", "e:a", "k:in(a, b)", "(k:a)", "not k:a", "k:[1 to 2]", "k:\"a\"", "*"}
 
 // VerifParseTotalLexemes: totality on every sequence of up to LEXEMES lexemes, each followed by
 // nothing or by one symbolic byte.
 func VerifParseTotalLexemes() {
 	n := 1 + rt.Choose(rt.Param("LEXEMES"))
 	q := ""
+	if rt.Param("FILTERFIRST") == 1 { // what follows a complete filter (operators, pipes, closing tokens, quoted keywords)
+		q = vFilters[rt.Choose(len(vFilters))]
+	}
 	for i := 0; i < n; i++ {
 		q += vLexemes[rt.Choose(len(vLexemes))]
 	}
